@@ -33,6 +33,8 @@ func checkC05(c *Check) {
 	}
 	ruleHeaderGate(c, p, "R05.1")
 	ruleBlockChecksumVerified(c, p, "R05.2")
+	ruleEveryBlockDecoded(c, p, "R05.20")
+	c.RuleDoc["R05.20"] = "every block the reading goroutine takes from the source reaches a decoder (where its checksum is compared) before the next block is read"
 	ruleContentChecksumVerified(c, p, "R05.3")
 	ruleEOSCallsCloseR(c, p, "R05.3")
 	ruleContentHashFeed(c, p, "R05.4")
@@ -86,6 +88,8 @@ func checkC06(c *Check) {
 	c.RuleDoc["R06.8"] = "= R07.10: the source is only read (no Seek past its end): truncation inside a skipped region is seen"
 	c.only(func(k string) bool { return strings.HasPrefix(k, "reader#") }, func() { ruleWireFields(c, p, "R06.9") })
 	c.RuleDoc["R06.9"] = "= R02.1, read side: every declared trailer and block field is consumed under exactly its own descriptor flag (a field skipped for some option combination is a place where a cut goes unnoticed)"
+	ruleReaderShutdown(c, p, "R06.10")
+	c.RuleDoc["R06.10"] = "= R07.6: the reading goroutine signals the end of the blocks on every exit, a read error included (a truncated stream whose error is latched but never signalled leaves Read blocked: the truncation is never reported)"
 	ruleLegacyDescriptor(c, p, "R06.7")
 	c.RuleDoc["R06.7"] = "the synthetic descriptor of a legacy frame declares only the block size (legacy frames stay on the sequential path)"
 }
